@@ -340,7 +340,7 @@ pub fn run(ctx: &Ctx, order: bool) -> Result<Evidence, String> {
         return Err(format!("renderer and oracle parser disagree on {} generated queries", acc.counters["HARNESS_render_parse_mismatch"]));
     }
     let mut ev = Evidence::new(if order {
-        "cases = (query, document): exhaustive product of the E1 query family (<=2 segments over a 16-selector pool, child+descendant, unions) and the order-stress family with all small documents (<= N nodes over 7 leaves, keys a,b,c) + curated + wrong-kind documents; plus seeded random queries x random documents; plus boundary queries x size-boundary documents (arrays/objects of 15..1000 members, strings of 0..1000 characters from many Unicode ranges, nests of depth 16..127, integers around 2^53 and the i64 limits). Non-trivial = distinct (query text, document) whose RFC result has >= 2 distinct nodes."
+        "cases = (query, document): exhaustive product of the E1 query family (<=2 segments over a 16-selector pool, child+descendant, unions) and the order-stress family with all small documents (<= N nodes over 7 leaves, keys a,b,c) + curated + wrong-kind documents; plus seeded random queries x random documents; plus boundary queries x size-boundary documents (arrays/objects of 15..1000 members, strings of 0..1000 characters from many Unicode ranges, nests of depth 16..127, integers around 2^53 and the i64 limits); plus segments of 2..100 selectors (names, indices, mixed; out of order, with repeats) x wide documents; plus filters over queries that print alike and one-of / none-of chains (shared with C05). Non-trivial = distinct (query text, document) whose RFC result has >= 2 distinct nodes."
     } else {
         "cases = (query, document) as for C02 (incl. the size-boundary family). Non-trivial = distinct (query text, document) whose RFC result is non-empty. Nodes are identified by address -> location (independent walk), compared as multisets with the reference evaluator's nodelist."
     });
